@@ -2,7 +2,7 @@
 
 Model: spec/Narrowing.tla (+ spec/Boolability.tla), extending Assign.tla / ValueAlgebra.tla / Values.tla.
 TLC proves, for every type term V of the bounded space, every condition c (isinstance, issubclass,
-TypeIs / TypeGuard functions, is / is not, == / !=, in / not in, truthiness, len comparisons, ordering comparisons against a
+TypeIs / TypeGuard functions, is / is not, == / !=, in / not in, truthiness, len comparisons (either operand order), ordering comparisons against a
 numeric literal (x < 1, x >= 0, ...), the class /
 identity constraints behind assert_is_instance / assert_is, not / and / or over those, and the value /
 singleton / class / or / sequence (fixed and starred, capture sub-patterns) patterns of `match`) and both
@@ -44,7 +44,7 @@ from .. import narrow_common as nc
 LEVEL = "model_checking"
 ACTIONS = [
     "ChooseV", "ChooseVCompound", "ChooseIsinstance", "ChooseIssubclass", "ChooseTypeIs", "ChooseTypeGuard", "ChooseIs",
-    "ChooseEq", "ChooseIn", "ChooseTruthy", "ChooseLen", "ChooseCmp", "ChooseLegacyIsinstance", "ChooseLegacyIsvalue", "ChooseNot",
+    "ChooseEq", "ChooseIn", "ChooseTruthy", "ChooseLen", "ChooseCmp", "ChooseLenR", "ChooseLegacyIsinstance", "ChooseLegacyIsvalue", "ChooseNot",
     "ChooseAnd", "ChooseOr", "ChooseDeep", "ChooseMatch", "ChooseMatchOr", "ChooseMatchSeq",
 ]
 BATCH = 6000
@@ -56,6 +56,8 @@ FLOW_SLICES = {"quick": ["q1", "q2", "q3", "q4"], "thorough": ["q1", "q2", "q3",
 # slices whose functions are only model-checked (Impl |= oracle), not replayed: none in quick
 FLOW_REPLAY_LIMIT = {"quick": 10**9, "thorough": 400000}
 FLOW_BATCH = 2000
+MATCH_ACTIONS = ["MChooseSubject", "MAddCase", "MFinish"]
+MATCH_SLICES = {"quick": ["q1", "q2"], "thorough": ["q1", "q2", "t1", "t2"]}
 
 
 def universe() -> list[dict]:
@@ -200,7 +202,7 @@ def flow_adjudicate(obs: list[dict], parallel: int = 6) -> tuple[dict, dict]:
     return core.adjudicate("ConstraintFlowTrace", "ConstraintFlowTrace.cfg", lines, batch=FLOW_BATCH, parallel=parallel, timeout=3000)
 
 
-def flow_judge(check: core.Check, cases: list[dict], label: str, wave: int = 30000, selftest: bool = False) -> dict[str, int]:
+def flow_judge(check: core.Check, cases: list[dict], label: str, wave: int = 30000, selftest: bool = False, pre: Any = None) -> dict[str, int]:
     """Observe and adjudicate in waves (observations carry the recorded runs: memory is bounded by one wave)."""
     counts: dict[str, int] = {}
     fl = check.cov.setdefault("flow", {})
@@ -208,7 +210,7 @@ def flow_judge(check: core.Check, cases: list[dict], label: str, wave: int = 300
     for w0 in range(0, len(cases), wave):
         t0 = time.time()
         extra = [_flow_selftest_case()] if selftest and w0 == 0 else []
-        obs = flow_observe(cases[w0 : w0 + wave] + extra, first_tid=w0 + 1)
+        obs = pre if (pre is not None and w0 == 0) else flow_observe(cases[w0 : w0 + wave] + extra, first_tid=w0 + 1)
         lines = []
         if extra:   # the binding self-test rides along with the first wave (corrupted copies of one real observation)
             lines = _flow_selftest_lines(obs.pop())
@@ -296,13 +298,14 @@ def flow_start(check: core.Check) -> dict:
     slices = FLOW_SLICES[check.tier]
     # quick: one self-test per oracle clause / deviation class; thorough: all
     sens = [("ConstraintFlow.sens_guard.cfg", "InvFlow"), ("ConstraintFlow.sens_widen.cfg", "InvFlow"),
-            ("ConstraintFlow.strict.cfg", "InvFlowStrict"), ("ConstraintFlow.sens_oldkey.cfg", "InvFlow")]
+            ("ConstraintFlow.sens_oldkey.cfg", "InvFlow")]
     if check.tier != "quick":
-        sens += [("ConstraintFlow.sens_noguard.cfg", "InvFlow"), ("ConstraintFlow.sens_once.cfg", "InvFlow"),
-                 ("ConstraintFlow.fixed.cfg", None), ("ConstraintFlow.fixed5.cfg", None)]
+        sens += [("ConstraintFlow.strict.cfg", "InvFlowStrict"), ("ConstraintFlow.sens_noguard.cfg", "InvFlow"),
+                 ("ConstraintFlow.sens_once.cfg", "InvFlow"), ("ConstraintFlow.fixed.cfg", None), ("ConstraintFlow.fixed5.cfg", None)]
 
     def tlc_slice(name: str):
-        return name, core.run_tlc("ConstraintFlowEmit", f"ConstraintFlow.{name}.cfg", workers=max(2, core.NCPU // 2), timeout=3000)
+        big = name in ("q1", "t1", "t2", "t3")
+        return name, core.run_tlc("ConstraintFlowEmit", f"ConstraintFlow.{name}.cfg", workers=max(2, core.NCPU // 2) if big else 3, timeout=3000)
 
     def tlc_sens(item):
         return item, core.run_tlc("ConstraintFlowEmit", item[0], workers=2, timeout=900)
@@ -310,9 +313,21 @@ def flow_start(check: core.Check) -> dict:
     def tlc_cov():
         return core.run_tlc("ConstraintFlow", "ConstraintFlow.cov.cfg", workers=2, coverage=True, timeout=900)
 
+    def tlc_match(name: str):
+        return name, core.run_tlc("MatchCasesEmit", f"MatchCases.{name}.cfg", workers=max(2, core.NCPU // 2) if name.startswith("t") else 3, timeout=3000)
+
+    def tlc_match_sens(item):
+        return item, core.run_tlc("MatchCasesEmit", item[0], workers=2, timeout=900)
+
+    def tlc_match_cov():
+        return core.run_tlc("MatchCases", "MatchCases.cov.cfg", workers=2, coverage=True, timeout=900)
+
+    match_sens = [("MatchCases.sens_nullguard.cfg", "InvMatch")] + ([] if check.tier == "quick" else [("MatchCases.sens_guard.cfg", "InvMatch")])
     ex = ThreadPoolExecutor(6)
     return {"t0": time.time(), "ex": ex, "slices": [ex.submit(tlc_slice, n) for n in slices], "cov": ex.submit(tlc_cov),
-            "sens": [ex.submit(tlc_sens, it) for it in sens]}
+            "sens": [ex.submit(tlc_sens, it) for it in sens],
+            "m_slices": [ex.submit(tlc_match, n) for n in MATCH_SLICES[check.tier]], "m_cov": ex.submit(tlc_match_cov),
+            "m_sens": [ex.submit(tlc_match_sens, it) for it in match_sens]}
 
 
 def flow_collect(check: core.Check, started: dict) -> dict:
@@ -320,12 +335,16 @@ def flow_collect(check: core.Check, started: dict) -> dict:
     started["results"] = [f.result() for f in started["slices"]]
     started["sens_results"] = [f.result() for f in started["sens"]]
     started["cov_result"] = started["cov"].result()
+    started["m_results"] = [f.result() for f in started["m_slices"]]
+    started["m_sens_results"] = [f.result() for f in started["m_sens"]]
+    started["m_cov_result"] = started["m_cov"].result()
     started["ex"].shutdown()
     started["t1"] = time.time()
     return started
 
 
-def flow_finish(check: core.Check, started: dict) -> None:
+def flow_finish(check: core.Check, started: dict) -> list[dict]:
+    """Bookkeeping of the TLC runs of the flow slice; returns the functions to replay (judged by flow_judge)."""
     rnd = random.Random(check.seed + 5)
     results, sens_results = started["results"], started["sens_results"]
     cov = core.require_ok(started["cov_result"], "flow coverage")
@@ -338,7 +357,7 @@ def flow_finish(check: core.Check, started: dict) -> None:
     fl = check.cov.setdefault("flow", {})
     fl["wall_s"] = {"tlc_slices_coverage_sensitivity (overlapping the Narrowing TLC runs)": round(t1 - t0, 1)}
     fl["sensitivity"] = (
-        "(quick runs sens_guard, sens_widen, strict, sens_oldkey; thorough all) "
+        "(quick runs sens_guard, sens_widen, sens_oldkey; thorough all) "
         "InvFlow is violated when the Impl model's origin guard is reversed (the seeded-change family) or removed, when a loop body is "
         "visited once, and (FlowN2) when an assignment keeps the old definition nodes; InvFlowStrict (no deviation class) is violated on "
         "the model of the code as it is (strict.cfg: the open class saved-alternatives-negated-as-conjunction) and holds on the model with "
@@ -382,7 +401,14 @@ def flow_finish(check: core.Check, started: dict) -> None:
         raise core.MachineryError("the model of the repaired node keying (a080673) overwrote a fake node")
     limit = FLOW_REPLAY_LIMIT[check.tier]
     fl["functions_model_checked"] = len(cases)
-    fl["replay_exhaustive"] = len(cases) <= limit
+    if check.tier == "quick":
+        # rebalancing: q1 is the largest slice and most of its functions never narrow (no fake definition node created, no
+        # constraint dropped); quick replays a seeded third of those and every other function, thorough replays all
+        idle = [c for c in cases if c["slice"] == "q1" and c["fakes"] == 0 and c["drops"] == 0]
+        keep = set(map(id, rnd.sample(idle, len(idle) // 3)))
+        cases = [c for c in cases if not (c["slice"] == "q1" and c["fakes"] == 0 and c["drops"] == 0) or id(c) in keep]
+        fl["quick_sampled_out_of_q1_without_narrowing"] = len(idle) - len(keep)
+    fl["replay_exhaustive"] = len(cases) <= limit and check.tier != "quick"
     if len(cases) > limit:
         # the quick slices are always replayed in full; the rest is a seeded sample
         must = [c for c in cases if c["slice"].startswith("q")]
@@ -392,15 +418,168 @@ def flow_finish(check: core.Check, started: dict) -> None:
         if c["fakes"] > 0 or c["drops"] > 0:
             check.nontrivial(_flow_digest(c))
     plain = [{"decl": c["decl"], "toks": c["toks"]} for c in cases]
-    fl["verdict_counts"] = flow_judge(check, plain, "tlc-flow-" + check.tier, selftest=True)
     fl["rule"] = (
         "functions enumerated by TLC (ConstraintFlow.tla generator: every token sequence within the bounds of each slice, no dead code, "
         "no empty blocks, ok bound before it is tested, at most one loop level), each model-checked (InvFlow) and replayed through the real "
         f"visitor and real CPython (FBits={fc.FBITS} free flag() results, loop bodies entered at most {fc.FMAXTICKS} times per run, argument "
-        "objects 1 / True / 'a' / None of the declared type); non-trivial = the model creates a fake definition node or the origin guard drops a constraint"
+        "objects 1 / True / 'a' / None of the declared type); non-trivial = the model creates a fake definition node or the origin guard drops a constraint; quick replays every function in which the model creates a fake node or drops a constraint and a seeded third of the remaining functions of slice q1, thorough replays all"
     )
     check.cov["rule"] = check.cov.get("rule", "") + "; FLOW SLICE: " + fl["rule"] + " -- bounds per slice under coverage.flow.slices"
     check.cov["exhaustive_flow_replay"] = fl["replay_exhaustive"]
+    return plain
+
+
+# --------------------------------------------------------------------------- match statements with several cases and guards (MatchCases.tla)
+def match_case_key(case: dict) -> str:
+    return core.canon({"subj": case["subj"], "cases": case["cases"]}) + "#match"
+
+
+def match_observe(cases: list[dict], first_tid: int = 1, procs: int = core.NCPU) -> list[dict]:
+    items = [(first_tid + i, c) for i, c in enumerate(cases)]
+    chunks = [items[i : i + 100] for i in range(0, len(items), 100)]
+    return [o for part in core.pmap(fc.observe_match_chunk, chunks, procs=procs, chunk=1) for o in part]
+
+
+def match_adjudicate(obs: list[dict], parallel: int = 8) -> tuple[dict, dict]:
+    lines = [{k: v for k, v in o.items() if k != "src"} for o in obs]
+    return core.adjudicate("MatchCasesTrace", "MatchCasesTrace.cfg", lines, batch=1500, parallel=parallel, timeout=3000)
+
+
+def _match_selftest_case() -> dict:
+    # x: Optional[int];  case None if flag(): U(12, x) / case _: U(22, x);  U(99, x)
+    cnd = {"kind": "m_singleton", "cls": [], "lits": [{"c": "NoneType", "v": "None", "items": []}], "t": {"k": "union", "ms": []},
+           "op": "", "n": 0, "neg": False, "subs": []}
+    wild = dict(cnd, kind="m_wild", lits=[])
+    return {"subj": {"k": "union", "ms": [{"k": "typed", "c": "int"}, {"k": "known", "o": {"c": "NoneType", "v": "None", "items": []}}]},
+            "cases": [{"p": cnd, "g": "flag"}, {"p": wild, "g": "none"}]}
+
+
+def _match_selftest_lines(base: dict) -> list[dict]:
+    """Corrupted copies of one real observation; all inferred types written by hand (independent of the tree under test)."""
+    I = {"k": "typed", "c": "int"}
+    N = {"k": "known", "o": {"c": "NoneType", "v": "None", "items": []}}
+    opt = {"k": "union", "ms": [I, N]}
+    good = [{"u": 12, "t": N}, {"u": 22, "t": opt}, {"u": 99, "t": {"k": "union", "ms": [N, I]}}]
+    a = dict(base, tid=SELFTEST_TID + 1, inf=good)
+    b = dict(base, tid=SELFTEST_TID + 2, inf=[good[0], {"u": 22, "t": I}, good[2]])      # the seeded family: None fails the guard, reaches case _
+    c = dict(base, tid=SELFTEST_TID + 3, inf=[good[0], {"u": 22, "t": {"k": "union", "ms": [I, N, {"k": "typed", "c": "str"}]}}, good[2]])
+    d = dict(a, tid=SELFTEST_TID + 4, runs=base["runs"][1:])
+    return [a, b, c, d]
+
+
+def _match_selftest_verdicts(verdicts: dict) -> None:
+    mine = {k - SELFTEST_TID: verdicts.pop(k) for k in list(verdicts) if k > SELFTEST_TID}
+    ok = (1 not in mine and "viol:MatchN1" in mine.get(2, []) and "viol:MatchN2" in mine.get(3, []) and mine.get(4, []) == ["oracle:runs"])
+    if not ok:
+        raise core.MachineryError(f"match binding self-test failed: {mine}")
+
+
+def match_judge(check: core.Check, cases: list[dict], label: str, wave: int = 20000, selftest: bool = False, pre: Any = None) -> dict[str, int]:
+    counts: dict[str, int] = {}
+    ml = check.cov.setdefault("match_cases", {})
+    wall = ml.setdefault("wall_s", {})
+    for w0 in range(0, len(cases), wave):
+        t0 = time.time()
+        extra = [_match_selftest_case()] if selftest and w0 == 0 else []
+        obs = pre if (pre is not None and w0 == 0) else match_observe(cases[w0 : w0 + wave] + extra, first_tid=w0 + 1)
+        lines = _match_selftest_lines(obs.pop()) if extra else []
+        t1 = time.time()
+        verdicts, stats = match_adjudicate(obs + lines)
+        if extra:
+            _match_selftest_verdicts(verdicts)
+            stats["observations"] -= len(lines)
+        wall["observe"] = round(wall.get("observe", 0) + t1 - t0, 1)
+        wall["adjudicate"] = round(wall.get("adjudicate", 0) + time.time() - t1, 1)
+        check.add_trace_stats(stats)
+        check.evals(len(obs))
+        by_tid = {o["tid"]: o for o in obs}
+        for tid, vals in verdicts.items():
+            o = by_tid[tid]
+            case = {"subj": o["subj"], "cases": o["cases"]}
+            payload = {"case": case, "observation": {k: o[k] for k in ("src", "inf")}, "source": label}
+            for v in sorted(set(vals)):
+                counts[v] = counts.get(v, 0) + 1
+                if v.startswith("oracle:"):
+                    raise core.MachineryError(f"the model of the match semantics disagrees with real CPython ({v}) on\n{o['src']}")
+                if v.startswith("viol:"):
+                    check.violation(match_case_key(case), v[5:], payload)
+                elif v.startswith("dev:"):
+                    check.violation(v[4:], v[4:], payload)
+                elif v.startswith("drift:"):
+                    check.drift({"verdict": v, **payload})
+                else:
+                    raise core.MachineryError(f"unknown verdict {v}")
+        ml["functions_replayed"] = ml.get("functions_replayed", 0) + len(obs)
+        ml["reads_judged"] = ml.get("reads_judged", 0) + sum(len(o["inf"]) for o in obs)
+        ml["cpython_runs_compared"] = ml.get("cpython_runs_compared", 0) + sum(len(o["runs"]) for o in obs)
+        for o in obs:
+            if any(r["t"] != o["subj"] for r in o["inf"]):
+                check.nontrivial(_flow_digest({"decl": o["subj"], "toks": o["cases"]}))
+        if w0 == 0:
+            for o in obs[:: max(1, len(obs) // 2)][:2]:
+                check.sample({"source": label, "src": o["src"], "inf": o["inf"], "runs": len(o["runs"])}, limit=10)
+    return counts
+
+
+def match_finish(check: core.Check, started: dict) -> list[dict]:
+    cov = core.require_ok(started["m_cov_result"], "match coverage")
+    core.require_coverage(cov, MATCH_ACTIONS, "MatchCases")
+    check.add_tlc("coverage:MatchCases.cov.cfg", cov)
+    for (cfg, inv), r in started["m_sens_results"]:
+        if r.violated != inv:
+            raise core.MachineryError(f"match sensitivity self-test {cfg}: expected {inv} to be violated, got {r.violated} / {r.error}")
+    ml = check.cov.setdefault("match_cases", {})
+    ml["sensitivity"] = (
+        "InvMatch is violated when the Impl model drops a NULL guard constraint from the constraints of a case (MBug=drop_null_guard, the "
+        "seeded-change family: the inverse carried to later cases becomes the plain negated pattern) and when the guard is not carried at "
+        "all (MBug=guard_not_carried); corrupted observations (object failing the guard narrowed out of the next case, widened type, "
+        "withheld CPython run) are flagged viol:MatchN1 / viol:MatchN2 / oracle:runs"
+    )
+    ml["slices"] = {}
+    all_cases: dict[str, dict] = {}
+    for name, res in started["m_results"]:
+        core.require_ok(res, f"MatchCases {name}")
+        check.add_tlc(f"match:{name} (InvMatchEmit)", res)
+        cases = [c for c in core.emitted_json(res) if "cases" in c]
+        res.stdout = ""
+        consts = _flow_cfg_constants(f"MatchCases.{name}.cfg")
+        ml["slices"][name] = {"functions": len(cases), "states": res.distinct,
+                              "bounds": {k: consts[k] for k in ("MSubjects", "MPatterns", "MGuards", "MMaxCases")}}
+        for c in cases:
+            c["cases"] = [_FLOW_INTERN.setdefault(core.canon(x), x) for x in c["cases"]]
+            all_cases.setdefault(_flow_digest({"decl": c["subj"], "toks": c["cases"]}), c)
+    cases = list(all_cases.values())
+    guards = {cs["g"] for c in cases for cs in c["cases"]}
+    pats = {cs["p"]["kind"] for c in cases for cs in c["cases"]}
+    if not {"none", "flag", "guse", "xnn", "ynone"} <= guards or not {"m_value", "m_singleton", "m_class", "m_wild"} <= pats:
+        raise core.MachineryError(f"match slice: guards / pattern kinds never generated: {sorted(guards)} {sorted(pats)}")
+    ml["functions_model_checked"] = len(cases)
+    ml["rule"] = (
+        "functions `match x:` with 2-3 cases (pattern, guard) enumerated by TLC (MatchCases.tla: every sequence within the bounds of each "
+        "slice; nothing after an irrefutable unguarded case), each model-checked (InvMatch) and replayed through the real visitor (reads "
+        "in guard position, in every case body and after the match) and real CPython (17 objects x y in {None, 1} x every outcome of the "
+        "opaque guards); non-trivial = the real inferred type differs from the subject type at some read"
+    )
+    check.cov["rule"] = check.cov.get("rule", "") + "; MATCH CASES: " + ml["rule"]
+    return cases
+
+
+def judge_flow_and_match(check: core.Check, fcases: list[dict], mcases: list[dict]) -> None:
+    fl, ml = check.cov["flow"], check.cov["match_cases"]
+    flabel, mlabel = "tlc-flow-" + check.tier, "tlc-match-" + check.tier
+    if len(fcases) <= 30000 and len(mcases) <= 20000:
+        # one wave each: observe both (forked workers) first, then let TLC adjudicate the two traces side by side (threads only)
+        t0 = time.time()
+        fobs = flow_observe(fcases + [_flow_selftest_case()])
+        mobs = match_observe(mcases + [_match_selftest_case()])
+        fl.setdefault("wall_s", {})["observe_both_slices"] = round(time.time() - t0, 1)
+        with ThreadPoolExecutor(2) as ex:
+            f1 = ex.submit(flow_judge, check, fcases, flabel, selftest=True, pre=fobs)
+            f2 = ex.submit(match_judge, check, mcases, mlabel, selftest=True, pre=mobs)
+            fl["verdict_counts"], ml["verdict_counts"] = f1.result(), f2.result()
+    else:
+        fl["verdict_counts"] = flow_judge(check, fcases, flabel, selftest=True)
+        ml["verdict_counts"] = match_judge(check, mcases, mlabel, selftest=True)
 
 
 def run(check: core.Check) -> None:
@@ -419,7 +598,10 @@ def run(check: core.Check) -> None:
         "flow slice: x is the only narrowed variable (a parameter, re-assigned literals), one saved-condition variable ok, conditions "
         "isinstance(x, int|str) / x is (not) None and their `not`, opaque flag() calls; U(k, x) returns True (the visitor sees `-> bool`); "
         "return only as the last statement of a branch; no break / continue / try / for (C09's subject); no attribute or subscript targets",
-        "not covered: mapping / class-with-subpattern / guarded / nested sequence match patterns, ordering comparisons with the variable on the right (1 < x) or against "
+        "match slice (MatchCases.tla): 2-3 cases, guards flag() / G(k, x) (opaque) / x is not None / isinstance(x, int) / y is None, patterns "
+        "value / singleton / class / or / sequence (captures) / {} / _ / capture; the mapping pattern {} is modelled against the bare class "
+        "Mapping (its Mapping[K, V] type variables are outside the term algebra; subjects never contain object / Any)",
+        "not covered: mapping patterns with keys / class-with-subpattern / nested sequence match patterns, ordering comparisons with the variable on the right (1 < x) or against "
         "non-numeric literals, len / ordering comparisons inside and/or chains (MinLen/MaxLen/Gt.. "
         "annotations), TypedDict / Callable / TypeVar values, attribute or subscript targets (self.x, a[0])",
     ]
@@ -434,9 +616,11 @@ def run(check: core.Check) -> None:
     check.add_tlc("coverage:Narrowing.cov.cfg", cov)
     # sensitivity self-tests (InvN3Strict holds once the abstract-class repair is declared applied in the cfgs)
     abc_fixed = "abc_boolable" in (core.SPEC / "mc" / "Narrowing.strict3.cfg").read_text().split("NFixed")[1].split("\n")[0]
-    for c, inv in (("Narrowing.sens.cfg", "InvN1"), ("Narrowing.sens_cmp.cfg", "InvN1"), ("Narrowing.strict1.cfg", "InvN1Strict"),
-                   ("Narrowing.strict3.cfg", None if abc_fixed else "InvN3Strict")):
-        r = core.run_tlc("Narrowing", c, workers=2, timeout=900)
+    nsens = (("Narrowing.sens.cfg", "InvN1"), ("Narrowing.sens_cmp.cfg", "InvN1"), ("Narrowing.sens_lenr.cfg", "InvN1Strict"),
+             ("Narrowing.strict1.cfg", "InvN1Strict"), ("Narrowing.strict3.cfg", None if abc_fixed else "InvN3Strict"))
+    with ThreadPoolExecutor(len(nsens)) as ex:       # (no worker process has been forked yet)
+        nres = list(ex.map(lambda it: core.run_tlc("Narrowing", it[0], workers=2, timeout=900), nsens))
+    for (c, inv), r in zip(nsens, nres):
         if r.violated != inv:
             raise core.MachineryError(f"sensitivity self-test {c}: expected {inv} to be violated, got {r.violated} / {r.error}")
     check.cov["sensitivity"] = (
@@ -461,7 +645,7 @@ def run(check: core.Check) -> None:
         "where V has annotation syntax, through the visitor; non-trivial = the real code changed the type of x in at least one branch"
     )
     kinds = {c["c"]["kind"] for c in cases}
-    missing = {"isinstance", "issubclass", "typeis", "typeguard", "is", "eq", "in", "truthy", "boolcall", "len", "cmp", "c_isinstance",
+    missing = {"isinstance", "issubclass", "typeis", "typeguard", "is", "eq", "in", "truthy", "boolcall", "len", "cmp", "lenr", "c_isinstance",
                "c_isvalue", "not", "and", "or", "m_value", "m_singleton", "m_class", "m_or", "m_seq"} - kinds
     if missing:
         raise core.MachineryError(f"condition kinds never generated: {sorted(missing)}")
@@ -472,13 +656,16 @@ def run(check: core.Check) -> None:
     sim = [c for c in sim if "ac" in c]
     counts2 = judge(check, sim, [], objs_t, "tlc-simulate-depth2")
     check.cov["verdict_counts"] = {"exhaustive": counts, "simulate": counts2}
-    flow_finish(check, flow)
+    judge_flow_and_match(check, flow_finish(check, flow), match_finish(check, flow))
 
 
 def replay(check: core.Check, witness: dict) -> None:
     case = witness["case"]
     if "toks" in case:
         flow_judge(check, [{"decl": case["decl"], "toks": case["toks"]}], "replay")
+        return
+    if "cases" in case:
+        match_judge(check, [{"subj": case["subj"], "cases": case["cases"]}], "replay")
         return
     objs_t = universe()
     judge(check, [case] if "ac" in case else [], [case["v"]], objs_t, "replay")
